@@ -13,17 +13,23 @@ import (
 // engine against the question name regardless of letter case (of the question or of
 // the rule), for the name itself and its subdomains and for nothing else.
 //
-//verif:harness name=H10c-names tier=quick,thorough stubs=off bounds="real urlfilter engine; rules {||block.example^, ||UPPER.Example^}; 11 concrete question names (exact, subdomain, mixed and upper case, look-alikes, root); qtype from {A, AAAA, HTTPS}" reach=blocked,not-blocked,mixed-case-blocked
+//verif:harness name=H10c-names tier=quick,thorough stubs=off bounds="real urlfilter engine; rules {||block.example^, ||UPPER.Example^} with or without a rule for the root name (|.^); 11 concrete question names (exact, subdomain, mixed and upper case, look-alikes, root); qtype from {A, AAAA, HTTPS, NS}" reach=blocked,not-blocked,mixed-case-blocked,root-blocked
 //verif:assume urlfilter is interpreted on concrete names only
 func VerifC10Names() {
-	p := NewDefaultProfile(&ProfileConfig{BlocklistDomainRules: []string{"||block.example^", "||UPPER.Example^"}})
+	rules := []string{"||block.example^", "||UPPER.Example^"}
+	rootRule := verifChoice(2) == 1
+	if rootRule {
+		// a rule for the root name itself (queries such as NS . or ANY .)
+		rules = append(rules, "|.^")
+	}
+	p := NewDefaultProfile(&ProfileConfig{BlocklistDomainRules: rules})
 	names := []string{
 		"block.example.", "BLOCK.EXAMPLE.", "Block.eXample.", "sub.block.example.", "Sub.Block.Example.",
 		"upper.example.", "UPPER.Example.",
 		"notblock.example.", "block.example.org.", "other.test.", ".",
 	}
 	name := names[verifChoice(len(names))]
-	qt := []uint16{dns.TypeA, dns.TypeAAAA, dns.TypeHTTPS}[verifChoice(3)]
+	qt := []uint16{dns.TypeA, dns.TypeAAAA, dns.TypeHTTPS, dns.TypeNS}[verifChoice(4)]
 	req := &dns.Msg{Question: []dns.Question{{Name: name, Qtype: qt, Qclass: dns.ClassINET}}}
 	got := p.IsBlocked(req, netip.MustParseAddrPort("192.0.2.1:5353"), nil)
 
@@ -33,6 +39,10 @@ func VerifC10Names() {
 		if l == d || strings.HasSuffix(l, "."+d) {
 			want = true
 		}
+	}
+	if rootRule && name == "." {
+		want = true
+		verifReach("root-blocked")
 	}
 	verifAssert("blocked-name-verdict-ignores-case", got == want)
 	if got {
